@@ -378,7 +378,13 @@ pub fn gen_time(rng: &mut Rng, o: &TimeOpts) -> Case {
         caps: vec![1, 2, 4, 16],
         ..Default::default()
     };
-    let mut case = gen_bench(rng, &bo);
+    let case = gen_bench(rng, &bo);
+    gen_time_on(rng, o, case)
+}
+
+/// Adds scheduling activity (model-side requests, driver script, scripted
+/// clock) to an existing bench.
+pub fn gen_time_on(rng: &mut Rng, o: &TimeOpts, mut case: Case) -> Case {
     // Event sources for `Via::Action` need at least one source without filters to keep firing observable.
     if case.sources.iter().all(|s| s.query) {
         let t = rng.usize(case.nodes.len()) as u16;
